@@ -3,6 +3,8 @@
 set -u
 P=$1; shift
 WT=${VERIF_SCRATCH_WT:-/tmp/wt2}
+# the scratch worktree is created on demand (remove it afterwards: git -C /repo worktree remove --force $WT)
+[ -d "$WT" ] || git -C /repo worktree add -q --detach "$WT" || exit 9
 cd $WT || exit 9
 git checkout -q --detach $(git -C /repo rev-parse HEAD) && git checkout -q -- . || exit 9
 git apply "$P" || { echo "PATCH DOES NOT APPLY"; exit 4; }
